@@ -396,7 +396,17 @@ pub fn walk_cmd(args: &[&str]) -> String {
         };
         let logs: Logs = Rc::new(RefCell::new(vec![]));
         let mut items = vec![];
-        if mode == "g" {
+        if mode == "o" {
+            // a glob that owns its expression (FromStr): anchor and component programs come from the owned token tree
+            let glob: Glob<'static> = expr.parse().map_err(|_| "globerr".to_string())?;
+            if all_default {
+                run4(glob.walk(basep.clone()), &layers, &logs, &mut items)?;
+            }
+            else {
+                run4(glob.walk_with_behavior(basep.clone(), behavior), &layers, &logs, &mut items)?;
+            }
+        }
+        else if mode == "g" {
             let glob = Glob::new(&expr).map_err(|_| "globerr".to_string())?;
             if all_default {
                 run4(glob.walk(basep.clone()), &layers, &logs, &mut items)?;
